@@ -1,10 +1,12 @@
-//! Check framework: work items, worker processes, merging, known findings, evidence, verdict lines.
-use crate::explore::{Chooser, DfsStats, dfs, fnv};
+//! Check framework: work items, a pool of worker processes with a dynamic queue (large subtrees
+//! are split and re-queued), merging, known findings, evidence, verdict lines.
+use crate::explore::{Chooser, DfsStats, dfs_from, fnv};
 use serde::{Deserialize, Serialize};
 use serde_json::{Value, json};
-use std::collections::{BTreeMap, BTreeSet, HashSet};
+use std::collections::{BTreeMap, BTreeSet, HashSet, VecDeque};
 use std::io::{BufRead, BufReader, Write};
 use std::process::{Command, Stdio};
+use std::sync::{Condvar, Mutex};
 use std::time::{Duration, Instant};
 
 #[derive(Debug, Clone, Copy, PartialEq, Eq)]
@@ -38,6 +40,9 @@ pub struct Violation {
     pub property: String,
     pub sig: String,
     pub scenario: String,
+    /// fine discriminator inside the scenario (e.g. the client history that fails)
+    #[serde(default)]
+    pub detail: String,
     pub what: String,
     pub replay: Value,
 }
@@ -46,8 +51,9 @@ pub struct Violation {
 pub struct ItemOut {
     pub executions: u64,
     pub transitions: u64,
-    pub states: u64,
-    pub outcomes: u64,
+    /// hashes of (scenario, state fingerprint) / (scenario, final observation class)
+    pub state_hashes: Vec<u64>,
+    pub outcome_hashes: Vec<u64>,
     pub max_enabled: u32,
     pub max_depth: u64,
     pub capped: bool,
@@ -59,6 +65,8 @@ pub struct ItemOut {
     pub machinery: Vec<String>,
     /// scenarios in which two schedules differed in an intermediate state
     pub schedule_sensitive: u64,
+    /// unexplored subtrees to be re-queued as items of their own
+    pub spill: Vec<Vec<u32>>,
 }
 
 impl ItemOut {
@@ -73,6 +81,13 @@ impl ItemOut {
         self.capped |= st.capped;
         self.horizon_hits += st.horizon_hits;
         self.pruned_by_bound += st.pruned_by_bound;
+        self.spill.extend(st.remaining.iter().cloned());
+    }
+    pub fn add_state(&mut self, scenario: &str, s: &str) {
+        self.state_hashes.push(fnv(&format!("{scenario}|{s}")));
+    }
+    pub fn add_outcome(&mut self, scenario: &str, s: &str) {
+        self.outcome_hashes.push(fnv(&format!("{scenario}|{s}")));
     }
 }
 
@@ -90,9 +105,11 @@ pub struct CheckInfo {
 
 pub trait Check: Sync {
     fn info(&self, tier: Tier) -> CheckInfo;
-    /// ids of the work items (scenarios) of this tier, simplest first
-    fn items(&self, tier: Tier) -> Vec<String>;
-    fn run_item(&self, tier: Tier, idx: usize, id: &str, out: &mut ItemOut);
+    /// the work items of this tier, simplest first; each is a JSON object with at least "id" and,
+    /// when several items belong to one scenario, "scenario". Items that carry "prefix" (a decision
+    /// prefix) and "single" can be split further by the framework.
+    fn items(&self, tier: Tier) -> Vec<Value>;
+    fn run_item(&self, tier: Tier, item: &Value, out: &mut ItemOut);
 }
 
 /// observation of one execution, produced by a scenario runner
@@ -105,8 +122,14 @@ pub struct RunObs {
     /// class of the final observation
     pub outcome: String,
     pub viols: Vec<(String, String)>,
+    /// fine discriminator of this execution for known-finding scopes (e.g. its client history)
+    pub detail: String,
     pub log: Vec<String>,
     pub machinery: Vec<String>,
+}
+
+pub fn spill_after() -> u64 {
+    std::env::var("VERIF_SPILL").ok().and_then(|s| s.parse().ok()).unwrap_or(250)
 }
 
 /// Explore one scenario with the replay DFS, collect statistics, confirm and record violations.
@@ -121,17 +144,37 @@ pub fn explore_scenario(
     want_sample: bool,
     run: &dyn Fn(&mut Chooser, bool) -> RunObs,
 ) -> DfsStats {
+    explore_scenario_from(out, property, scenario_id, scenario_desc, bound, cap, want_sample, &[], false, u64::MAX, run)
+}
+
+#[allow(clippy::too_many_arguments)]
+pub fn explore_scenario_from(
+    out: &mut ItemOut,
+    property: &str,
+    scenario_id: &str,
+    scenario_desc: &Value,
+    bound: Option<usize>,
+    cap: u64,
+    want_sample: bool,
+    start: &[u32],
+    single: bool,
+    spill: u64,
+    run: &dyn Fn(&mut Chooser, bool) -> RunObs,
+) -> DfsStats {
     let mut states: HashSet<u64> = HashSet::new();
     let mut outcomes: BTreeSet<String> = BTreeSet::new();
-    let mut seen_sigs: BTreeSet<String> = BTreeSet::new();
+    let mut seen_sigs: BTreeSet<(String, String)> = BTreeSet::new();
     let mut viols: Vec<Violation> = vec![];
+    let mut per_sig: BTreeMap<String, usize> = BTreeMap::new();
     let mut machinery: Vec<String> = vec![];
-    let mut sample: Option<Value> = None;
     let mut first_states: Option<Vec<u64>> = None;
     let mut sensitive = false;
-    let st = dfs(
+    let st = dfs_from(
         bound,
         cap,
+        start,
+        single,
+        spill,
         |ch| run(ch, false),
         |ch, o: RunObs| {
             for s in &o.states {
@@ -148,7 +191,7 @@ pub fn explore_scenario(
             outcomes.insert(o.outcome.clone());
             machinery.extend(o.machinery.iter().cloned());
             for (sig, what) in &o.viols {
-                if seen_sigs.insert(sig.clone()) {
+                if seen_sigs.insert((sig.clone(), o.detail.clone())) {
                     // replay twice from scratch; the observation must be identical
                     let mut c1 = Chooser::new(&ch.taken);
                     c1.want_labels = true;
@@ -162,18 +205,24 @@ pub fn explore_scenario(
                         ));
                         continue;
                     }
+                    // the full replay (decisions + log) is kept for the first cases of a signature only
+                    let n = per_sig.entry(sig.clone()).or_insert(0usize);
+                    *n += 1;
+                    let replay = if *n <= 2 {
+                        json!({"property": property, "signature": sig, "scenario": scenario_id, "detail": o.detail, "desc": scenario_desc,
+                            "schedule": ch.taken, "decisions": c1.labels, "what": what, "log": o1.log})
+                    } else {
+                        json!({"property": property, "signature": sig, "scenario": scenario_id, "detail": o.detail, "schedule": ch.taken, "what": what})
+                    };
                     viols.push(Violation {
                         property: property.to_string(),
                         sig: sig.clone(),
                         scenario: scenario_id.to_string(),
+                        detail: o.detail.clone(),
                         what: what.clone(),
-                        replay: json!({"property": property, "signature": sig, "scenario": scenario_id, "desc": scenario_desc,
-                            "schedule": ch.taken, "decisions": c1.labels, "what": what, "log": o1.log}),
+                        replay,
                     });
                 }
-            }
-            if want_sample && sample.is_none() {
-                sample = Some(json!({"scenario": scenario_id, "schedule": ch.taken, "outcome": o.outcome}));
             }
             true
         },
@@ -184,11 +233,15 @@ pub fn explore_scenario(
         c.want_labels = true;
         let o = run(&mut c, true);
         out.samples.push(json!({"scenario": scenario_id, "desc": scenario_desc, "schedule": c.taken, "decisions": c.labels,
-            "log": o.log, "outcome": o.outcome, "schedules_explored": st.executions}));
+            "log": o.log, "outcome": o.outcome}));
     }
     out.add_stats(&st);
-    out.states += states.len() as u64;
-    out.outcomes += outcomes.len() as u64;
+    for s in states {
+        out.state_hashes.push(s ^ fnv(scenario_id));
+    }
+    for o in outcomes {
+        out.add_outcome(scenario_id, &o);
+    }
     if sensitive {
         out.schedule_sensitive += 1;
     }
@@ -200,16 +253,21 @@ pub fn explore_scenario(
 #[derive(Debug, Clone)]
 pub struct Finding {
     pub property: String,
-    pub sig: String,
-    pub scope: String,
+    pub sig: regex::Regex,
+    pub scenario: regex::Regex,
+    pub detail: regex::Regex,
     pub text: String,
-    pub scenarios: Option<BTreeSet<String>>,
+    pub line: String,
 }
 
 pub fn verif_root() -> String {
     std::env::var("VERIF_ROOT").unwrap_or_else(|_| "/verif".to_string())
 }
 
+/// KNOWN_FINDINGS.txt lines:
+///   finding: property=<id> sig=<regex> scenario=<regex> detail=<regex> :: <what fails>
+/// The regexes are anchored; `detail` is the fine discriminator of a violation inside its scenario
+/// (for history checks the client history that fails). A missing field matches everything.
 pub fn load_findings() -> Vec<Finding> {
     let root = verif_root();
     let mut v = vec![];
@@ -224,57 +282,54 @@ pub fn load_findings() -> Vec<Finding> {
             None => (line, ""),
         };
         let mut property = String::new();
-        let mut sig = String::new();
-        let mut scope = String::from("*");
+        let mut sig = ".*".to_string();
+        let mut scenario = ".*".to_string();
+        let mut detail = ".*".to_string();
         for tok in head["finding:".len()..].split_whitespace() {
             if let Some(x) = tok.strip_prefix("property=") {
                 property = x.to_string();
             } else if let Some(x) = tok.strip_prefix("sig=") {
                 sig = x.to_string();
-            } else if let Some(x) = tok.strip_prefix("scope=") {
-                scope = x.to_string();
+            } else if let Some(x) = tok.strip_prefix("scenario=") {
+                scenario = x.to_string();
+            } else if let Some(x) = tok.strip_prefix("detail=") {
+                detail = x.to_string();
             }
         }
-        let scenarios = if scope == "*" {
-            None
-        } else {
-            let t = std::fs::read_to_string(format!("{root}/{scope}")).unwrap_or_default();
-            Some(t.lines().map(|l| l.trim().to_string()).filter(|l| !l.is_empty() && !l.starts_with('#')).collect())
-        };
+        let re = |s: &str| regex::Regex::new(&format!("^(?:{s})$")).unwrap_or_else(|e| {
+            eprintln!("MACHINERY: bad regex in KNOWN_FINDINGS.txt: {s}: {e}");
+            std::process::exit(2)
+        });
         v.push(Finding {
             property,
-            sig,
-            scope,
+            sig: re(&sig),
+            scenario: re(&scenario),
+            detail: re(&detail),
             text: tail.trim().to_string(),
-            scenarios,
+            line: line.to_string(),
         });
     }
     v
 }
 
 fn finding_matches(f: &Finding, v: &Violation) -> bool {
-    f.property == v.property
-        && f.sig == v.sig
-        && match &f.scenarios {
-            None => true,
-            Some(s) => s.contains(&v.scenario),
-        }
+    f.property == v.property && f.sig.is_match(&v.sig) && f.scenario.is_match(&v.scenario) && f.detail.is_match(&v.detail)
 }
 
-pub fn run_worker(check: &dyn Check, tier: Tier, start: usize, end: usize, deadline_s: u64) {
+/// worker process: items arrive as JSON lines on stdin, one result line per item on stdout
+pub fn run_worker(check: &dyn Check, tier: Tier) {
     crate::world::install_panic_hook_quiet();
-    let items = check.items(tier);
-    let t0 = Instant::now();
+    let stdin = std::io::stdin();
     let stdout = std::io::stdout();
-    for idx in start..end.min(items.len()) {
-        if t0.elapsed() > Duration::from_secs(deadline_s) {
-            let mut o = stdout.lock();
-            let _ = writeln!(o, "{}", json!({"item": idx, "skipped": true}));
-            continue;
-        }
+    for line in stdin.lock().lines().map_while(Result::ok) {
+        let item: Value = match serde_json::from_str(&line) {
+            Ok(v) => v,
+            Err(_) => continue,
+        };
+        let t0 = Instant::now();
         let mut out = ItemOut::default();
         let r = std::panic::catch_unwind(std::panic::AssertUnwindSafe(|| {
-            check.run_item(tier, idx, &items[idx], &mut out);
+            check.run_item(tier, &item, &mut out);
         }));
         if let Err(e) = r {
             let msg = e
@@ -282,10 +337,13 @@ pub fn run_worker(check: &dyn Check, tier: Tier, start: usize, end: usize, deadl
                 .cloned()
                 .or_else(|| e.downcast_ref::<&str>().map(|s| s.to_string()))
                 .unwrap_or_else(|| "panic".into());
-            out.machinery.push(format!("item {} ({}) panicked in the harness: {}", idx, items[idx], msg));
+            out.machinery.push(format!("item {} panicked in the harness: {}", item["id"], msg));
+        }
+        if std::env::var("VERIF_DEBUG").is_ok() {
+            eprintln!("item {} took {:.2}s executions {} spill {}", item["id"], t0.elapsed().as_secs_f64(), out.executions, out.spill.len());
         }
         let mut o = stdout.lock();
-        let _ = writeln!(o, "{}", json!({"item": idx, "out": out}));
+        let _ = writeln!(o, "{}", json!({"out": out}));
         let _ = o.flush();
     }
 }
@@ -297,171 +355,251 @@ pub fn nworkers() -> usize {
         .unwrap_or_else(|| std::thread::available_parallelism().map(|n| n.get()).unwrap_or(8).min(16))
 }
 
+struct Queue {
+    items: VecDeque<Value>,
+    in_flight: usize,
+    skipped: usize,
+}
+
 /// parent: run all items in worker processes, merge, write evidence, print verdict lines; returns exit code
 pub fn run_check(check: &dyn Check, tier: Tier) -> i32 {
     let t0 = Instant::now();
     let info = check.info(tier);
-    let items = check.items(tier);
+    crate::world::install_panic_hook_quiet();
+    let mut items = check.items(tier);
     let n = items.len();
-    let seed: u64 = std::env::var("VERIF_SEED").ok().and_then(|s| s.parse().ok()).unwrap_or(0);
-    let workers = nworkers();
-    // chunks of items; small chunks give load balance and bound the memory of a worker process
-    let chunk = std::env::var("VERIF_CHUNK")
-        .ok()
-        .and_then(|s| s.parse().ok())
-        .unwrap_or_else(|| (n / (workers * 8)).clamp(1, 64));
-    let mut chunks: Vec<(usize, usize)> = (0..n).step_by(chunk).map(|s| (s, (s + chunk).min(n))).collect();
-    if seed != 0 && !chunks.is_empty() {
-        // the seed only rotates the order in which chunks are handed out
-        let r = (seed as usize) % chunks.len();
-        chunks.rotate_left(r);
+    if std::env::var("VERIF_DEBUG").is_ok() {
+        eprintln!("items computed in {:.2}s: {}", t0.elapsed().as_secs_f64(), n);
     }
+    let scenario_ids: BTreeSet<String> = items
+        .iter()
+        .map(|i| i["scenario"].as_str().unwrap_or_else(|| i["id"].as_str().unwrap_or("")).to_string())
+        .collect();
+    let seed: u64 = std::env::var("VERIF_SEED").ok().and_then(|s| s.parse().ok()).unwrap_or(0);
+    if seed != 0 && !items.is_empty() {
+        // the seed only rotates the order in which items are handed out; coverage does not depend on it
+        let r = (seed as usize) % items.len();
+        items.rotate_left(r);
+    }
+    let workers = nworkers();
+    let recycle: usize = std::env::var("VERIF_RECYCLE").ok().and_then(|s| s.parse().ok()).unwrap_or(400);
     let exe = std::env::current_exe().expect("current exe");
-    let queue = std::sync::Mutex::new(chunks.into_iter());
-    let results: std::sync::Mutex<Vec<(usize, Option<ItemOut>)>> = std::sync::Mutex::new(vec![]);
-    let machinery: std::sync::Mutex<Vec<String>> = std::sync::Mutex::new(vec![]);
-    let budget = info.budget_s;
+    let queue = Mutex::new(Queue {
+        items: items.into_iter().collect(),
+        in_flight: 0,
+        skipped: 0,
+    });
+    let cv = Condvar::new();
+    let results: Mutex<Vec<ItemOut>> = Mutex::new(vec![]);
+    let machinery: Mutex<Vec<String>> = Mutex::new(vec![]);
+    let total_items = Mutex::new(n);
+    let budget = Duration::from_secs(info.budget_s);
     std::thread::scope(|sc| {
         for _ in 0..workers.min(n.max(1)) {
             sc.spawn(|| {
-                loop {
-                    let next = queue.lock().unwrap().next();
-                    let (s, e) = match next {
-                        Some(x) => x,
-                        None => break,
-                    };
-                    let remaining = budget.saturating_sub(t0.elapsed().as_secs());
+                let spawn = || {
                     let mut child = Command::new(&exe)
-                        .args(["worker", info.id, tier.name(), &s.to_string(), &e.to_string(), &remaining.to_string()])
+                        .args(["worker", info.id, tier.name()])
+                        .stdin(Stdio::piped())
                         .stdout(Stdio::piped())
                         .stderr(Stdio::inherit())
                         .spawn()
                         .expect("spawn worker");
+                    let stdin = child.stdin.take().unwrap();
                     let rd = BufReader::new(child.stdout.take().unwrap());
-                    let mut got = 0;
-                    for line in rd.lines().map_while(Result::ok) {
-                        if let Ok(v) = serde_json::from_str::<Value>(&line) {
-                            if let Some(idx) = v.get("item").and_then(|x| x.as_u64()) {
-                                got += 1;
-                                if v.get("skipped").is_some() {
-                                    results.lock().unwrap().push((idx as usize, None));
-                                } else if let Ok(o) = serde_json::from_value::<ItemOut>(v["out"].clone()) {
-                                    results.lock().unwrap().push((idx as usize, Some(o)));
-                                } else {
-                                    machinery.lock().unwrap().push(format!("bad worker line for item {idx}"));
-                                }
+                    (child, stdin, rd)
+                };
+                let (mut child, mut stdin, mut rd) = spawn();
+                let mut served = 0usize;
+                loop {
+                    // take the next item, or wait for spills of items in flight
+                    let item = {
+                        let mut q = queue.lock().unwrap();
+                        loop {
+                            if t0.elapsed() > budget && !q.items.is_empty() {
+                                q.skipped += q.items.len();
+                                q.items.clear();
+                                cv.notify_all();
                             }
+                            if let Some(it) = q.items.pop_front() {
+                                q.in_flight += 1;
+                                break Some(it);
+                            }
+                            if q.in_flight == 0 {
+                                break None;
+                            }
+                            q = cv.wait_timeout(q, Duration::from_millis(200)).unwrap().0;
+                        }
+                    };
+                    let item = match item {
+                        Some(i) => i,
+                        None => break,
+                    };
+                    let mut line = String::new();
+                    let ok = writeln!(stdin, "{}", item).is_ok()
+                        && stdin.flush().is_ok()
+                        && rd.read_line(&mut line).map(|n| n > 0).unwrap_or(false);
+                    let parsed = if ok { serde_json::from_str::<Value>(&line).ok() } else { None };
+                    let out = parsed.and_then(|v| serde_json::from_value::<ItemOut>(v["out"].clone()).ok());
+                    let mut q = queue.lock().unwrap();
+                    q.in_flight -= 1;
+                    match out {
+                        Some(mut o) => {
+                            for (k, p) in std::mem::take(&mut o.spill).into_iter().enumerate() {
+                                let mut it = item.clone();
+                                it["prefix"] = json!(p);
+                                it["single"] = json!(false);
+                                it["id"] = json!(format!("{}+{}", item["id"].as_str().unwrap_or(""), k));
+                                q.items.push_back(it);
+                                *total_items.lock().unwrap() += 1;
+                            }
+                            results.lock().unwrap().push(o);
+                        }
+                        None => {
+                            machinery
+                                .lock()
+                                .unwrap()
+                                .push(format!("worker died or sent garbage on item {}", item["id"]));
+                            drop(q);
+                            let _ = child.kill();
+                            let _ = child.wait();
+                            (child, stdin, rd) = spawn();
+                            served = 0;
+                            cv.notify_all();
+                            continue;
                         }
                     }
-                    let status = child.wait().expect("wait worker");
-                    if !status.success() || got != e - s {
-                        machinery.lock().unwrap().push(format!(
-                            "worker for items {s}..{e} ended with {status} after {got} of {} items",
-                            e - s
-                        ));
+                    cv.notify_all();
+                    drop(q);
+                    served += 1;
+                    if served >= recycle {
+                        // bound the memory of a worker process
+                        drop(stdin);
+                        let _ = child.wait();
+                        (child, stdin, rd) = spawn();
+                        served = 0;
                     }
                 }
+                drop(stdin);
+                let _ = child.wait();
             });
         }
     });
-    let mut results = results.into_inner().unwrap();
-    results.sort_by_key(|r| r.0);
+    let skipped = queue.lock().unwrap().skipped;
+    let n = *total_items.lock().unwrap();
+    let results = results.into_inner().unwrap();
     let mut machinery = machinery.into_inner().unwrap();
     let mut total = ItemOut::default();
-    let mut skipped = 0usize;
+    let mut states: HashSet<u64> = HashSet::new();
+    let mut outcomes: HashSet<u64> = HashSet::new();
     let mut items_with_choice = 0u64;
-    for (_, o) in results.iter() {
-        match o {
-            None => skipped += 1,
-            Some(o) => {
-                total.executions += o.executions;
-                total.transitions += o.transitions;
-                total.states += o.states;
-                total.outcomes += o.outcomes;
-                total.max_enabled = total.max_enabled.max(o.max_enabled);
-                total.max_depth = total.max_depth.max(o.max_depth);
-                total.capped |= o.capped;
-                total.horizon_hits += o.horizon_hits;
-                total.pruned_by_bound += o.pruned_by_bound;
-                total.schedule_sensitive += o.schedule_sensitive;
-                if o.max_enabled > 1 {
-                    items_with_choice += 1;
-                }
-                for (k, v) in &o.counters {
-                    *total.counters.entry(k.clone()).or_default() += v;
-                }
-                if total.samples.len() < 3 {
-                    total.samples.extend(o.samples.iter().take(3 - total.samples.len()).cloned());
-                }
-                total.violations.extend(o.violations.iter().cloned());
-                machinery.extend(o.machinery.iter().cloned());
-            }
+    for o in results.iter() {
+        total.executions += o.executions;
+        total.transitions += o.transitions;
+        states.extend(o.state_hashes.iter().copied());
+        outcomes.extend(o.outcome_hashes.iter().copied());
+        total.max_enabled = total.max_enabled.max(o.max_enabled);
+        total.max_depth = total.max_depth.max(o.max_depth);
+        total.capped |= o.capped;
+        total.horizon_hits += o.horizon_hits;
+        total.pruned_by_bound += o.pruned_by_bound;
+        total.schedule_sensitive += o.schedule_sensitive;
+        if o.max_enabled > 1 {
+            items_with_choice += 1;
         }
+        for (k, v) in &o.counters {
+            *total.counters.entry(k.clone()).or_default() += v;
+        }
+        if total.samples.len() < 3 {
+            total.samples.extend(o.samples.iter().take(3 - total.samples.len()).cloned());
+        }
+        total.violations.extend(o.violations.iter().cloned());
+        machinery.extend(o.machinery.iter().cloned());
     }
     // verdict
     let findings = load_findings();
-    let mut known_hit: BTreeMap<usize, u64> = BTreeMap::new();
+    let mut known_hit: BTreeMap<usize, BTreeSet<String>> = BTreeMap::new();
     let mut fresh: Vec<&Violation> = vec![];
+    let mut seen: BTreeSet<(String, String, String)> = BTreeSet::new();
     for v in &total.violations {
+        if !seen.insert((v.sig.clone(), v.scenario.clone(), v.detail.clone())) {
+            continue;
+        }
         match findings.iter().position(|f| finding_matches(f, v)) {
-            Some(i) => *known_hit.entry(i).or_default() += 1,
+            Some(i) => {
+                known_hit.entry(i).or_default().insert(format!("{}|{}|{}", v.scenario, v.sig, v.detail));
+            }
             None => fresh.push(v),
         }
     }
     let root = verif_root();
+    let _ = std::fs::remove_dir_all(format!("{root}/replays/{}", info.id));
     let mut exit = 0;
-    for (i, cnt) in &known_hit {
+    for (i, scs) in &known_hit {
         let f = &findings[*i];
-        println!("KNOWN-FINDING: property={} {} [sig={} scenarios={}]", f.property, f.text, f.sig, cnt);
+        println!("KNOWN-FINDING: property={} {} [{} case(s)]", f.property, f.text, scs.len());
     }
-    let mut fresh_sigs: BTreeMap<String, (usize, String)> = BTreeMap::new();
+    let mut fresh_sigs: BTreeMap<String, usize> = BTreeMap::new();
     for v in &fresh {
-        let e = fresh_sigs.entry(v.sig.clone()).or_insert((0, String::new()));
-        e.0 += 1;
-        if e.0 <= 3 {
+        let e = fresh_sigs.entry(v.sig.clone()).or_insert(0);
+        *e += 1;
+        if *e <= 2 {
             let dir = format!("{root}/replays/{}", v.property);
             let _ = std::fs::create_dir_all(&dir);
-            let path = format!("{dir}/{:016x}.json", fnv(&format!("{}|{}", v.sig, v.scenario)));
+            let path = format!("{dir}/{:016x}.json", fnv(&format!("{}|{}|{}", v.sig, v.scenario, v.detail)));
             let _ = std::fs::write(&path, serde_json::to_string_pretty(&v.replay).unwrap_or_default());
             println!("VIOLATION property={} replay={}", v.property, path);
-            println!("  signature={} scenario={} :: {}", v.sig, v.scenario, v.what);
-            exit = 1;
+            println!("  signature={} scenario={} detail={} :: {}", v.sig, v.scenario, v.detail, v.what);
+        }
+        exit = 1;
+    }
+    for (sig, cnt) in &fresh_sigs {
+        println!("  {cnt} case(s) violate {} with signature {sig}", info.id);
+    }
+    if std::env::var("VERIF_EMIT_SCOPE").is_ok() {
+        // helper for maintaining findings/*.scope files: signature <tab> scenario of every violation
+        for (sig, scenario, detail) in &seen {
+            println!("SCOPE\t{scenario}\t{sig}\t{detail}");
         }
     }
-    for (sig, (cnt, _)) in &fresh_sigs {
-        println!("  {cnt} scenario(s) violate {} with signature {sig}", info.id);
-    }
     // vacuity and machinery
-    if total.executions == 0 {
-        machinery.push("no execution was explored".into());
+    if total.executions == 0 && total.counters.get("evaluations").copied().unwrap_or(0) == 0 {
+        machinery.push("nothing was explored".into());
     }
-    if info.level == "model_checking" && n > 0 && total.max_enabled <= 1 && total.counters.get("edges").copied().unwrap_or(0) == 0 {
+    if info.level == "model_checking"
+        && n > 0
+        && total.max_enabled <= 1
+        && total.counters.get("edges").copied().unwrap_or(0) == 0
+    {
         machinery.push("vacuous exploration: no decision ever had more than one alternative".into());
     }
     let exhaustive = info.exhaustive_when_uncapped && !total.capped && skipped == 0 && total.horizon_hits == 0;
     let wall = t0.elapsed().as_secs_f64();
+    let n_states = (states.len() as i64).max(total.counters.get("states").copied().unwrap_or(0)).max(1);
+    let n_trans = (total.transitions as i64).max(total.counters.get("edges").copied().unwrap_or(0)).max(1);
     let mut coverage = json!({
-        "states": total.states.max(1),
-        "transitions": total.transitions.max(1),
-        "traces_validated_against_impl": total.executions,
+        "states": n_states,
+        "transitions": n_trans,
+        "traces_validated_against_impl": total.executions.max(total.counters.get("edges").copied().unwrap_or(0) as u64),
         "evaluations": total.executions.max(total.counters.get("evaluations").copied().unwrap_or(0) as u64),
-        "distinct_nontrivial": total.counters.get("distinct_nontrivial").copied().unwrap_or(total.outcomes as i64).max(0),
+        "distinct_nontrivial": total.counters.get("distinct_nontrivial").copied().unwrap_or(outcomes.len() as i64).max(0),
         "rule": info.rule,
         "samples": total.samples,
         "exhaustive": exhaustive,
-        "scenarios": n,
-        "scenarios_skipped_by_wall_cap": skipped,
-        "scenarios_with_a_real_choice": items_with_choice,
+        "scenarios": scenario_ids.len(),
+        "work_items": n,
+        "work_items_skipped_by_wall_cap": skipped,
+        "work_items_with_a_real_choice": items_with_choice,
         "scenarios_where_schedules_differed": total.schedule_sensitive,
         "max_simultaneously_enabled": total.max_enabled,
         "max_decisions_per_execution": total.max_depth,
-        "distinct_final_observations": total.outcomes,
+        "distinct_final_observations": outcomes.len(),
         "execution_cap_hit": total.capped,
         "horizon_hits": total.horizon_hits,
         "alternatives_beyond_deviation_bound": total.pruned_by_bound,
         "bounds": info.bounds,
         "counters": total.counters,
-        "known_findings_hit": known_hit.iter().map(|(i, c)| json!({"sig": findings[*i].sig, "scenarios": c})).collect::<Vec<_>>(),
+        "known_findings_hit": known_hit.iter().map(|(i, c)| json!({"finding": findings[*i].text, "cases": c.len()})).collect::<Vec<_>>(),
         "machinery_errors": machinery,
         "workers": workers,
     });
@@ -485,20 +623,21 @@ pub fn run_check(check: &dyn Check, tier: Tier) -> i32 {
     let path = format!("{root}/evidence/{}.json", info.id);
     std::fs::write(&path, serde_json::to_string_pretty(&ev).unwrap()).expect("write evidence");
     println!(
-        "{} {}: scenarios={} executions={} transitions={} states={} outcomes={} max_enabled={} exhaustive={} capped={} skipped={} violations={} known={} wall={:.1}s",
+        "{} {}: scenarios={} items={} executions={} transitions={} states={} outcomes={} max_enabled={} exhaustive={} capped={} skipped={} violations={} known={} wall={:.1}s",
         info.id,
         tier.name(),
+        scenario_ids.len(),
         n,
         total.executions,
         total.transitions,
-        total.states,
-        total.outcomes,
+        states.len(),
+        outcomes.len(),
         total.max_enabled,
         exhaustive,
         total.capped,
         skipped,
         fresh.len(),
-        known_hit.values().sum::<u64>(),
+        known_hit.values().map(|s| s.len()).sum::<usize>(),
         wall
     );
     for (k, v) in &total.counters {
